@@ -135,18 +135,26 @@ def observe_synset(w, lid, k, ref, V, tag, g, obs):
         V.append((key, f'{msg} [{tag}] :: {g}', None, g))
     x = w.synset(f'{lid}-{k}')
     exp = ref.step(('L', k))
-    st, v = budget.call(lambda: list(x._iter_relations()), budget=2000)
-    got = [((r.name, r.source_id, r.target_id, rel_lexicon(r)), node_of(t, lid)) for r, t in v] if st == 'ok' else None
-    if st != 'ok':
-        bad(f'relations:{st}', f'{lid}-{k} relations -> {v!r}')
-        return
-    obs.append(sorted(map(repr, got)))
-    if sorted(got, key=repr) != sorted(exp, key=repr):
-        bad('relations:differs', f'{lid}-{k}: (relation, target) pairs {sorted(got, key=repr)} expected {sorted(exp, key=repr)}')
-        return
-    n_own = sum(1 for rk, _ in exp if rk[3] == f'{lid}:1')
-    if any(rk[3] != f'{lid}:1' for rk, _ in got[:n_own]):
-        bad('relations:own-not-first', f'{lid}-{k}: own relations are not listed first: {got}')
+    # the full (relation, target) pair list is only available through a private iterator; where a refactoring has
+    # removed it the public views below still decide the property
+    if hasattr(x, '_iter_relations'):
+        st, v = budget.call(lambda: list(x._iter_relations()), budget=2000)
+        got = [((r.name, r.source_id, r.target_id, rel_lexicon(r)), node_of(t, lid)) for r, t in v] if st == 'ok' else None
+        if st != 'ok':
+            bad(f'relations:{st}', f'{lid}-{k} relations -> {v!r}')
+            return
+        obs.append(sorted(map(repr, got)))
+        if sorted(got, key=repr) != sorted(exp, key=repr):
+            bad('relations:differs', f'{lid}-{k}: (relation, target) pairs {sorted(got, key=repr)} expected {sorted(exp, key=repr)}')
+            return
+    # own relations come first ("its own relations followed by ..."), seen through the public get_related()
+    own_t = [t for rk, t in exp if rk[3] == f'{lid}:1']
+    st, v = budget.call(x.get_related, budget=2000)
+    if st == 'ok' and own_t:
+        seq = [node_of(t, lid) for t in v]
+        first_borrowed = min((seq.index(t) for rk, t in exp if rk[3] != f'{lid}:1' and t in seq and t not in own_t), default=len(seq))
+        if any(seq.index(t) > first_borrowed for t in own_t if t in seq):
+            bad('relations:own-not-first', f'{lid}-{k}.get_related() = {seq}: a borrowed target precedes an own one')
     # public views
     rel = x.relations()
     got_pub = sorted((name, repr(node_of(t, lid))) for name, lst in rel.items() for t in lst)
